@@ -72,6 +72,10 @@ def jobs_for(prop, tier):
     if prop in ENGINE_S_PROPS:
         for sp in store_subjects(tier) + fleet_subjects(tier):
             jobs.append({"engine": "S", "prop": prop, "label": sp.label() + "#" + _h(sp), "spec": sp.to_json(), "caps": caps})
+    elif prop in F_FAMILIES:
+        jobs = f_jobs(prop, tier)
+    elif prop == "C19":
+        jobs = [{"engine": "C19", "prop": prop, "label": "C19-differential", "tier": tier}]
     elif prop == "C07":
         if q:
             subs = [S("rs", 2, live=2), S("rps", 1, live=2, prios=[0]), S("rps", 2, live=2, prios=[0]),
@@ -98,6 +102,31 @@ def jobs_for(prop, tier):
     return jobs
 
 
+F_FAMILIES = {
+    "C03": ["lines", "congestion", "diamonds", "combiners"],
+    "C08": ["lines", "congestion", "diamonds", "combiners"],
+    "C09": ["lines", "congestion", "fans", "combiners"],
+    "C10": ["lines", "congestion", "diamonds", "fans", "combiners"],
+    "C15": ["diamonds", "fans", "combiners"],
+    "C16": ["combiners"],
+    "C17": ["lines", "congestion", "diamonds"],
+    "C18": ["lines", "congestion", "diamonds", "combiners"],
+    "C20": ["lines", "congestion", "diamonds", "fans", "combiners", "conveyors", "invalid", "c20_extra"],
+}
+
+
+def f_jobs(prop, tier):
+    from . import factory
+    q = tier == "quick"
+    jobs = []
+    for fam in F_FAMILIES[prop]:
+        for cfg in factory.FAMILIES[fam](tier):
+            jobs.append({"engine": "F", "prop": prop, "label": cfg["tag"], "config": cfg, "bound": 2 if q else 3,
+                         "crash_is_violation": prop == "C20",
+                         "caps": {"max_runs": 6000 if q else 300000, "max_seconds": 100 if q else 1200}})
+    return jobs
+
+
 def _h(sp):
     import hashlib
     return hashlib.sha1(json.dumps(sp.to_json(), sort_keys=True).encode()).hexdigest()[:6]
@@ -114,6 +143,20 @@ def run_job(job, seed):
         d["engine"] = "S"
         d["label"] = job["label"]
         return d
+    if job["engine"] == "C19":
+        from . import c19
+        return c19.run(job["tier"], seed)
+    if job["engine"] == "F":
+        from . import engine_f, fmonitors
+        prop = job["prop"]
+        o = engine_f.explore(job["config"], fmonitors.FMONITORS[prop], job["bound"], prop, seed=seed,
+                             crash_is_violation=job.get("crash_is_violation", False), **job["caps"])
+        return {"engine": "F", "label": job["label"], "spec": None, "states": o["distinct_logs"], "transitions": o["steps"],
+                "traces": o["runs"], "runs": o["runs"], "violations": o["violations"], "fixpoint": o["capped"] is None,
+                "capped": o["capped"], "crash_cuts": o["crashes"], "crash_samples": o["crash_samples"],
+                "deviation_bound": job["bound"], "distinct_logs": o["distinct_logs"], "wall": o["wall"],
+                "samples_short": o["samples"][:1], "samples_long": o["samples"][-1:], "distinct_nontrivial": o["distinct_logs"],
+                "counters": {"choice_points_max": o["choice_points_max"], "moved_runs": o["moved_runs"]}}
     raise ValueError(job["engine"])
 
 
